@@ -416,6 +416,10 @@ func eqArgs(a, b [][]byte) bool {
 	return true
 }
 
+// The tool's bookkeeping namespaces as its documentation lists them
+// (docs/bisync.md 4.1), independent of what the code happens to blacklist.
+var BookkeepingNamespaces = []string{"redis-gunyu-checkpoint", "/redis-gunyu", "redis-gunyu-bisync:"}
+
 // ---------------------------------------------------------------- env / ops
 
 type Env struct {
@@ -976,7 +980,10 @@ func GenKey(r *vfutil.Rand, eff Cfg) []byte {
 		}
 		return append(prefixPart(), b...)
 	case 2: // reserved bookkeeping keys
-		p := vfutil.Pick(r, []string{"redis-gunyu-checkpoint", "/redis-gunyu", "redis-gunyu-checkpoin", "/redis-gunyv", "redis-gunyu-checkpoint-x", "/redis-gunyu/a/b"})
+		p := vfutil.Pick(r, []string{"redis-gunyu-checkpoint", "/redis-gunyu", "redis-gunyu-checkpoin", "/redis-gunyv", "redis-gunyu-checkpoint-x", "/redis-gunyu/a/b",
+			// the bisync control namespace (docs/bisync.md 4.1) and near misses
+			"redis-gunyu-bisync:cp:latest:{slot-1}", "redis-gunyu-bisync:cp:marker:", "redis-gunyu-bisync:cp:commit:{slot-2}:00000000000000000007",
+			"redis-gunyu-bisync:", "redis-gunyu-bisync", "redis-gunyu-bisyncx:", "redis-gunyu-bisync:cp:index:", "redis-gunyu-bisync:cp:rdb:"})
 		if s, ok := slotPart(); ok && r.Bool() {
 			return KeyInSlot([]byte(p), s, nil)
 		}
@@ -1035,6 +1042,24 @@ func GenCommand(r *vfutil.Rand, eff Cfg) (string, [][]byte) {
 		}
 	}
 	k := r.Intn(20)
+	if r.Chance(1, 60) { // long key lists: positions beyond any machine-word mask, one or two rejected keys near the ends
+		name := vfutil.Pick(r, []string{"del", "unlink", "mset", "msetnx", "sinterstore"})
+		n := vfutil.Pick(r, []int{63, 64, 65, 66, 130, 257})
+		var a [][]byte
+		for i := 0; i < n; i++ {
+			kk := append([]byte("lk"), []byte(strconv.Itoa(i))...)
+			if i == 0 || i == 1 || i == 62 || i == 63 || i == 64 || i == n-1 || r.Chance(1, 40) {
+				if r.Bool() {
+					kk = key()
+				}
+			}
+			a = append(a, kk)
+			if name == "mset" || name == "msetnx" {
+				a = append(a, []byte("v"+strconv.Itoa(i)))
+			}
+		}
+		return randCase(r, name), a
+	}
 	switch {
 	case k < 5: // projection commands
 		name := vfutil.Pick(r, []string{"del", "unlink", "mset", "mset", "msetnx"})
